@@ -720,9 +720,12 @@ class Wired(Family):
     def setup(self):
         if getattr(self, "_ready", False):
             return
+        import os
         import tempfile
 
-        self._docroot = tempfile.mkdtemp(prefix="nv-c18-")
+        # document_root of the configuration file: one empty directory shared by all runs (never written to, never removed)
+        self._docroot = os.path.join(tempfile.gettempdir(), "nv-c18-docroot")
+        os.makedirs(self._docroot, exist_ok=True)
         self._ready = True
 
     # ---- generator ------------------------------------------------------------------------------
@@ -1092,3 +1095,4 @@ def extract_extra():
     from ..sim import url_gen
 
     url_gen.write_proxy_gen()
+
